@@ -84,7 +84,13 @@ class Conc:
         self.tc_name = rnd.choice(TEXTCONT_NAMES)
         # loop family: the loop variable `a` takes values start, start+step, ...; scale them
         # by a dyadic factor (exact in f32) to cover fractional starts and steps
-        self.vscale = rnd.choice([1, 1, 0.5, 0.25]) if rec.get("family") in ("loop", "looplim") else 1
+        # (2^-11 has eleven decimals: the loop variable keeps its full value, not a rounded one)
+        # (list items of <for> are expression values and print like every svgdx number, with
+        # three decimals: documents with a <for> keep to scales that survive that)
+        def has_for(nodes):
+            return any(n["k"] == "loop" and n["form"] == "for" or has_for(n["ch"]) for n in nodes)
+        scales = [1, 1, 0.5, 0.25] if has_for(rec["doc"]) else [1, 1, 0.5, 0.25, 2 ** -11]
+        self.vscale = rnd.choice(scales) if rec.get("family") in ("loop", "looplim") else 1
         # per-shape spelling variants (order family): what kind of element a leaf
         # is and how it spells its position; the abstract geometry is unchanged
         self.shape = {}
